@@ -107,6 +107,7 @@ def run(ctx):
     check_lm(ctx, rs, sc, LM)
     check_wrappers(ctx, rs, sc, S, L_BFGS_B, minimize, maximize, LS)
     check_malformed(ctx, rs, CGLS, PCGLS, FISTA)
+    check_generic(ctx, rs, sc, cuqi, CGLS, PCGLS, FISTA, LM, LS, L_BFGS_B, minimize, maximize, ProximalL1)
 
 
 # ----------------------------------------------------------------------------- projections / prox
@@ -926,7 +927,7 @@ def check_wrapper_kwargs(ctx, rs, sc, S, minimize, maximize):
     DF = ("Nelder-Mead", "Powell", "COBYLA")
     # the model's table for every (wrapper, method, gradient, keyword list) used below, in one driver call
     KW = [(None, []), (None, ["bounds"]), (None, ["constraints"]), (None, ["bounds", "constraints"]),
-          (None, ["bounds", "constraints", "options"]), (None, ["tol", "options"]), ("L-BFGS-B", ["bounds", "options"]),
+          (None, ["bounds", "constraints", "options"]), (None, ["tol", "options"]), (None, ["options"]), ("L-BFGS-B", ["bounds", "options"]),
           ("L-BFGS-B", ["bounds", "tol"]), ("TNC", ["bounds"]), ("SLSQP", ["bounds", "constraints"]), ("SLSQP", ["constraints", "tol"]),
           ("SLSQP", ["constraints"]), ("Newton-CG", ["hess"]), ("trust-ncg", ["hess", "options"]), ("BFGS", ["options", "callback"]),
           ("CG", ["tol"]), ("Nelder-Mead", ["bounds"]), ("COBYLA", ["constraints"])]
@@ -961,6 +962,10 @@ def check_wrapper_kwargs(ctx, rs, sc, S, minimize, maximize):
             ("default+bounds+constraints", None, {"bounds": bnds, "constraints": cons}, x0b),
             ("default+bounds+constraints+options", None, {"bounds": Bounds(lo, up), "constraints": cons, "options": {"maxiter": 200, "ftol": 1e-12}}, x0b),
             ("default+tol+options", None, {"tol": 1e-10, "options": {"maxiter": 500}}, x0),
+            ("default+constraints-empty-list", None, {"constraints": []}, x0),          # falsy values given explicitly
+            ("default+bounds-None", None, {"bounds": None}, x0),
+            ("default+options-empty", None, {"options": {}}, x0),
+            ("SLSQP+constraints-empty-tuple", "SLSQP", {"constraints": ()}, x0),
             ("L-BFGS-B+bounds+options", "L-BFGS-B", {"bounds": bnds, "options": {"maxiter": 3}}, x0b),
             ("L-BFGS-B+bounds+tol", "L-BFGS-B", {"bounds": bnds, "tol": 1e-12}, x0b),
             ("TNC+bounds", "TNC", {"bounds": bnds}, x0b),
@@ -1118,3 +1123,295 @@ def check_malformed(ctx, rs, CGLS, PCGLS, FISTA):
         ctx.case("malformed", {"driver": out}, nontrivial=False)
         if out not in ("bad-op", "err-dim"):
             ctx.disagree("malformed:driver", {}, "bad-op", out, "driver accepts an unparsable line")
+
+
+# ----------------------------------------------------------------------------- generic classes (dtypes, ownership, aliasing, histories)
+def snap(objs):
+    out = []
+    for o in objs:
+        if isinstance(o, np.ndarray):
+            out.append((str(o.dtype), o.shape, o.tobytes()))
+        elif sp.issparse(o):
+            out.append((o.data.tobytes(), o.indices.tobytes(), o.indptr.tobytes()))
+        else:
+            out.append(repr(o))
+    return out
+
+
+def as_kind(v, kind):
+    v = np.asarray(v)
+    if kind == "list":
+        return [int(t) for t in v]
+    if kind == "0d":
+        return np.array(float(v.ravel()[0]))
+    return v.astype({"int64": np.int64, "int32": np.int32, "float32": np.float32, "bool": bool, "float64": float}[kind])
+
+
+def check_generic(ctx, rs, sc, cuqi, CGLS, PCGLS, FISTA, LM, LS, L_BFGS_B, minimize, maximize, ProximalL1):
+    """implementation-only differential checks against the float64 / matrix-form / fresh-object run of the same solver
+    (which the sections above tie to the exact model), plus the optimality oracles:
+    G1 non-float64 inputs, G2 caller-owned objects untouched, G3 operators whose outputs are views of their inputs and
+    results not aliasing inputs, G5 call histories on one object, G6 falsy options (G4, the scale sweeps, is above)."""
+    for rep_ in range(4 * sc):
+        n = int(rs.randint(1, 5)); m = n + int(rs.randint(0, 3))
+        A = gen_matrix(rs, m, n, False)
+        b = rs.randint(-5, 6, size=m).astype(float)
+        x0 = rs.randint(0, 2, size=n).astype(float)                    # 0/1: representable in every dtype incl. bool
+        shift = float(rs.choice([0.0, 0.5]))
+        P = gen_precond(rs, n, "tri")
+        Psp = sp.csc_matrix(P)
+        L = np.linalg.norm(A, 2) ** 2
+        t = 0.9 / L; lam = 0.5
+        prox = lambda x, g: ProximalL1(x, lam * g)
+        resf = lambda x, A=A, b=b: A @ np.asarray(x, dtype=float) - b
+        jacf = lambda x, A=A: A
+        solvers = {
+            "CGLS": lambda A_, b_, x0_: CGLS(A_, b_, x0_, 60, 1e-10, shift).solve(),
+            "PCGLS": lambda A_, b_, x0_: PCGLS(A_, b_, x0_, Psp, 60, 1e-10, 0).solve(),
+            "FISTA": lambda A_, b_, x0_: FISTA(A_, b_, x0_, prox, maxit=4000, stepsize=t, abstol=1e-12, adaptive=bool(rep_ % 2)).solve(),
+        }
+        if n == 1:
+            del solvers["PCGLS"]                                        # known finding PCGLS:*:dim1:raises
+        base = {}
+        desc0 = {"A": A.tolist(), "b": b.tolist(), "x0": x0.tolist(), "shift": shift, "P": P.tolist()}
+        for name, run_ in solvers.items():
+            with quiet():
+                xb, kb = run_(A.copy(), b.copy(), x0.copy())
+            base[name] = (np.asarray(xb, dtype=float), int(kb))
+        with quiet():
+            xl, il = LM(resf, x0.copy(), jacf, maxit=200, sparse=False).solve()
+        base["LM"] = (np.asarray(xl, dtype=float), int(il["nfev"]))
+
+        def judge(name, tag, kind, call, precision=False):
+            """result of `call()` must be the float64 baseline; caller-owned arguments are snapshotted by the caller"""
+            desc = {**desc0, "solver": name, "variant": tag, "kind": kind}
+            ctx.case(f"generic-{tag}", desc)
+            try:
+                with quiet():
+                    r = call()
+            except Exception as e:
+                ctx.fail(f"{name}:{tag}:{kind}:raises", desc, [base[name][0].tolist(), base[name][1]], repr(e)[:100],
+                         "solver raises for an input that differs from the float64 one only by its dtype / container")
+                return None
+            x = np.asarray(r[0]); k = int(r[1]["nfev"]) if isinstance(r[1], dict) else int(r[1])
+            if x.dtype != np.float64 or k != base[name][1] or not vclose(x.astype(float), base[name][0], 1e-9):
+                ctx.fail(f"{name}:{tag}:{kind}:" + ("precision" if precision else "differs"), desc, [base[name][0].tolist(), base[name][1], "float64"],
+                         [x.tolist(), k, str(x.dtype)], "result differs from the one for the float64 version of the same numbers")
+            return r
+
+        # ---- G1: dtypes / containers of x0, b, A; G2: the passed objects are untouched
+        for name, run_ in list(solvers.items()) + [("LM", None)]:
+            for kind in ("int64", "int32", "float32", "bool", "list"):
+                if kind == "list" and name in ("CGLS", "PCGLS"):
+                    continue                                          # documented as ndarray; CGLS raises TypeError loudly (noted in docs)
+                xk = as_kind(x0, kind); Ak, bk = A.copy(), b.copy()
+                before = snap([Ak, bk, xk, Psp])
+                if name == "LM":
+                    judge(name, "x0-dtype", kind, lambda: LM(resf, xk, jacf, maxit=200, sparse=False).solve(), precision=(kind == "float32"))
+                else:
+                    judge(name, "x0-dtype", kind, lambda: run_(Ak, bk, xk), precision=(kind == "float32"))
+                if snap([Ak, bk, xk, Psp]) != before:
+                    ctx.fail(f"{name}:mutates-argument", {**desc0, "solver": name, "kind": kind}, "A, b, x0, P untouched", "changed",
+                             "solver modifies an object owned by the caller")
+            if name == "LM":
+                continue
+            for kind in ("int64", "float32", "list"):
+                bk = as_kind(b, kind); Ak, xk = A.copy(), x0.copy()
+                before = snap([Ak, bk, xk, Psp])
+                judge(name, "b-dtype", kind, lambda: run_(Ak, bk, xk))
+                if snap([Ak, bk, xk, Psp]) != before:
+                    ctx.fail(f"{name}:mutates-argument", {**desc0, "solver": name, "kind": "b-" + kind}, "A, b, x0, P untouched", "changed",
+                             "solver modifies an object owned by the caller")
+            Ak = A.astype(np.int64)
+            judge(name, "A-dtype", "int64", lambda: run_(Ak, b.copy(), x0.copy()))
+            # ---- G3: the result is a new array
+            with quiet():
+                xr, _ = run_(A, b, x0)
+            if isinstance(xr, np.ndarray) and (np.shares_memory(xr, x0) or np.shares_memory(xr, b)):
+                ctx.fail(f"{name}:alias:result", {**desc0, "solver": name}, "result does not share memory with x0 / b", "shares memory",
+                         "returned array aliases a caller-owned input")
+
+        # ---- G5: histories on one object (repeat, in-place update of the same argument arrays, attribute re-assignment)
+        b2 = b + rs.randint(1, 4, size=m); x02 = 1.0 - x0
+        for name in ("CGLS", "FISTA", "LM"):
+            bw, xw = b.copy(), x0.copy()
+            if name == "CGLS":
+                mk = lambda b_, x_, tol=1e-10, maxit=60, sh=shift: CGLS(A, b_, x_, maxit, tol, sh)
+                retune = {"tol": 1e-3, "maxit": 1, "shift": 1.0}
+                fresh2 = lambda: CGLS(A, b2.copy(), x02.copy(), 1, 1e-3, 1.0).solve()
+            elif name == "FISTA":
+                mk = lambda b_, x_: FISTA(A, b_, x_, prox, maxit=300, stepsize=t, abstol=1e-12, adaptive=True)
+                retune = {"maxit": 7, "stepsize": t / 2, "abstol": 1e-3, "adaptive": False}
+                fresh2 = lambda: FISTA(A, b2.copy(), x02.copy(), prox, maxit=7, stepsize=t / 2, abstol=1e-3, adaptive=False).solve()
+            else:
+                rw = lambda x, bw=bw: A @ x - bw
+                mk = lambda b_, x_: LM(rw, x_, jacf, maxit=200, sparse=False)
+                retune = {"maxit": 2, "gradtol": 1e-2, "nu0": 0.5}
+                fresh2 = lambda: LM(lambda x: A @ x - b2, x02.copy(), jacf, maxit=2, gradtol=1e-2, nu0=0.5, sparse=False).solve()
+            desc = {**desc0, "solver": name, "history": []}
+            ctx.case("generic-history", {**desc0, "solver": name})
+            def eq(r, q_):
+                k1 = r[1]["nfev"] if isinstance(r[1], dict) else r[1]; k2 = q_[1]["nfev"] if isinstance(q_[1], dict) else q_[1]
+                return k1 == k2 and np.array_equal(np.asarray(r[0]), np.asarray(q_[0]))
+            try:
+                with quiet():
+                    obj = mk(bw, xw)
+                    r1 = obj.solve(); r1 = (np.array(r1[0], copy=True), r1[1])
+                    r2 = obj.solve()
+                    ok_repeat = eq(r1, r2)
+                    r2[0][...] = 123.0                               # mutate the returned array: must not change a later solve
+                    r3 = obj.solve()
+                    ok_mut = eq(r1, r3)
+                    bw[...] = b2; xw[...] = x02                    # in-place update of the SAME argument arrays
+                    r4 = obj.solve()
+                    with quiet():
+                        f1 = mk(b2.copy(), x02.copy()).solve() if name != "LM" else LM(lambda x: A @ x - b2, x02.copy(), jacf, maxit=200, sparse=False).solve()
+                    ok_inplace = eq(r4, f1)
+                    for k_, v_ in retune.items():
+                        setattr(obj, k_, v_)
+                    r5 = obj.solve()
+                    ok_retune = eq(r5, fresh2())
+            except Exception as e:
+                ctx.fail(f"{name}:history:raises", desc, "results", repr(e)[:100], "a repeated / reconfigured solve raises")
+                continue
+            for tag, ok in (("repeat", ok_repeat), ("result-mutated", ok_mut), ("inplace-update", ok_inplace), ("reassign", ok_retune)):
+                if not ok:
+                    ctx.fail(f"{name}:history:{tag}", {**desc, "history": tag}, "result of a fresh object with the current configuration", "differs",
+                             "a solve on a re-used object does not give the result of a fresh object with the current arguments")
+
+    # ---- G3: function-form operators whose outputs are VIEWS of their inputs (identity, slices, reshapes, flips, restrictions)
+    for rep_ in range(3 * sc):
+        n = int(rs.randint(2, 6))
+        d = rs.randint(1, 4, size=n).astype(float)
+        mres = int(rs.randint(1, n))
+        ops = {
+            "identity": (np.eye(n), lambda x, f: x),
+            "slice-all": (np.eye(n), lambda x, f: x[:]),
+            "reshape": (np.eye(n), lambda x, f: x.reshape(-1)),
+            "flip": (np.eye(n)[::-1].copy(), lambda x, f: x[::-1]),
+            "restriction": (np.eye(n)[:mres].copy(), lambda x, f, n=n, mres=mres: x[:mres] if f == 1 else np.concatenate([x, np.zeros(n - mres)])),
+        }
+        for oname, (Mx, fun) in ops.items():
+            m = Mx.shape[0]
+            b = rs.randint(-5, 6, size=m).astype(float)
+            x0 = rs.randint(-3, 4, size=n).astype(float)
+            shift = float(rs.choice([0.0, 0.5, 1.0])) if oname != "restriction" else float(rs.choice([0.5, 1.0]))
+            P = gen_precond(rs, n, "diag"); Psp = sp.csc_matrix(P)
+            lam = float(rs.choice([0.25, 1.0])); t = float(rs.choice([0.5, 0.9, 1.0]))
+            prox = lambda x, g, lam=lam: ProximalL1(x, lam * g)
+            desc = {"operator": oname, "n": n, "b": b.tolist(), "x0": x0.tolist(), "shift": shift, "P": P.tolist(), "lam": lam, "stepsize": t}
+            runs = {"CGLS": lambda op: CGLS(op, b, x0, 60, 1e-10, shift).solve(),
+                    "PCGLS": lambda op: PCGLS(op, b, x0, Psp, 60, 1e-10, 0).solve(),
+                    "ISTA": lambda op: FISTA(op, b, x0, prox, maxit=5000, stepsize=t, abstol=1e-13, adaptive=False).solve(),
+                    "FISTA": lambda op: FISTA(op, b, x0, prox, maxit=5000, stepsize=t, abstol=1e-13, adaptive=True).solve()}
+            for name, run_ in runs.items():
+                ctx.case("generic-view-operator", {**desc, "solver": name})
+                key = f"{name}:alias-operator:{oname}"
+                before = snap([b, x0, Psp])
+                try:
+                    with quiet():
+                        xm, km = run_(Mx)
+                        xf, kf = run_(fun)
+                except Exception as e:
+                    ctx.fail(key, {**desc, "solver": name}, "a result", repr(e)[:100], "solver raises with a function-form operator returning views")
+                    continue
+                xm = np.asarray(xm, dtype=float); xf = np.asarray(xf, dtype=float)
+                if snap([b, x0, Psp]) != before:
+                    ctx.fail(f"{name}:mutates-argument", {**desc, "solver": name}, "b, x0, P untouched", "changed", "solver modifies an object owned by the caller")
+                if km != kf or not vclose(xm, xf, 1e-12):
+                    ctx.disagree(key, {**desc, "solver": name}, [xm.tolist(), int(km)], [xf.tolist(), int(kf)], "function form (views) differs from the matrix form")
+                # the property at the function-form result
+                if name in ("CGLS", "PCGLS"):
+                    sh = shift if name == "CGLS" else 0.0
+                    sres = Mx.T @ (b - Mx @ xf) - sh * xf
+                    if not np.all(np.isfinite(xf)) or np.linalg.norm(sres) > 1e-7 * (1 + np.linalg.norm(Mx.T @ b) + np.linalg.norm(x0)):
+                        ctx.fail(key, {**desc, "solver": name}, "normal equations hold at the returned point", float(np.linalg.norm(sres)),
+                                 "with an operator returning views of its input the returned point does not solve the normal equations")
+                    elif km != kf or not vclose(xm, xf, 1e-12):
+                        ctx.fail(key, {**desc, "solver": name}, [xm.tolist(), int(km)], [xf.tolist(), int(kf)], "result depends on the operator form")
+                else:
+                    Tx = ref_prox("l1", {"lam": lam}, xf - t * (Mx.T @ (Mx @ xf - b)), t)
+                    if kf < 5000 and np.linalg.norm(xf - Tx) > 1e-9:
+                        ctx.fail(key, {**desc, "solver": name}, "x = prox_t(x - t A^T(Ax-b))", float(np.linalg.norm(xf - Tx)),
+                                 "with an operator returning views of its input the returned point is not a fixed point of the proximal-gradient map")
+                    elif km != kf or not vclose(xm, xf, 1e-12):
+                        ctx.fail(key, {**desc, "solver": name}, [xm.tolist(), int(km)], [xf.tolist(), int(kf)], "result depends on the operator form")
+        # LM: residual / Jacobian callables returning views (of the argument / of a stored matrix)
+        Jst = np.diag(d)
+        for oname, rv, rc, Jm in (("identity", lambda x: x, lambda x: x.copy(), np.eye(n)),
+                                  ("flip", lambda x: x[::-1], lambda x: x[::-1].copy(), np.eye(n)[::-1].copy()),
+                                  ("reshape", lambda x: x.reshape(-1), lambda x: x.copy(), np.eye(n))):
+            x0 = rs.randint(-3, 4, size=n).astype(float)
+            x0[0] = 1.0
+            desc = {"operator": oname, "n": n, "x0": x0.tolist(), "solver": "LM"}
+            ctx.case("generic-view-operator", desc)
+            key = f"LM:alias-operator:{oname}"
+            before = snap([x0, Jm])
+            try:
+                with quiet():
+                    xv, iv = LM(rv, x0, lambda x: Jm, maxit=300, sparse=False).solve()
+                    xc, ic = LM(rc, x0.copy(), lambda x: Jm.copy(), maxit=300, sparse=False).solve()
+            except Exception as e:
+                ctx.fail(key, desc, "a result", repr(e)[:100], "LM raises with callables returning views"); continue
+            if snap([x0, Jm]) != before:
+                ctx.fail("LM:mutates-argument", desc, "x0 and the stored Jacobian untouched", "changed", "solver modifies an object owned by the caller")
+            g0 = np.linalg.norm(Jm.T @ x0[::-1] if oname == "flip" else Jm.T @ x0)
+            g = np.linalg.norm(Jm.T @ rc(np.asarray(xv, dtype=float)))
+            if iv["nfev"] < 300 and g > 1e-8 * g0 * (1 + 1e-6) + 1e-14 * (1 + g0):
+                ctx.fail(key, desc, f"|J^T r| <= 1e-8*|g0| = {1e-8 * g0}", float(g), "with callables returning views the returned point is not stationary")
+            elif iv["nfev"] != ic["nfev"] or not vclose(xv, xc, 1e-12):
+                ctx.disagree(key, desc, [np.asarray(xc).tolist(), ic["nfev"]], [np.asarray(xv).tolist(), iv["nfev"]], "view-returning callables change the run")
+                ctx.fail(key, desc, [np.asarray(xc).tolist(), ic["nfev"]], [np.asarray(xv).tolist(), iv["nfev"]], "result depends on whether the callables return views or copies")
+
+    # ---- G1/G2 for the SciPy wrappers: start vectors of every dtype / container; every field equals the direct SciPy call
+    for rep_ in range(3 * sc):
+        n = 1 if rep_ % 3 == 0 else int(rs.randint(2, 4))
+        B = gen_matrix(rs, n + 1, n, False); c = rs.randint(-3, 4, size=n + 1).astype(float) + 0.5
+        F = lambda x, B=B, c=c: float(0.5 * np.sum((B @ np.atleast_1d(np.asarray(x, dtype=float)) - c) ** 2))
+        G = lambda x, B=B, c=c: B.T @ (B @ np.atleast_1d(np.asarray(x, dtype=float)) - c)
+        R = lambda x, B=B, c=c: B @ np.atleast_1d(np.asarray(x, dtype=float)) - c
+        Jr = lambda x, B=B: B
+        x0 = rs.randint(0, 2, size=n).astype(float); x0[0] = 1.0
+        for kind in ("float64", "int64", "int32", "bool", "float32", "list") + (("0d",) if n == 1 else ()):
+            for wname in ("minimize", "maximize", "L_BFGS_B", "LS"):
+                xk = as_kind(x0, kind)
+                desc = {"wrapper": wname, "x0": x0.tolist(), "x0_kind": kind, "B": B.tolist(), "c": c.tolist()}
+                ctx.case("generic-wrapper-start", desc)
+                key = f"{wname}:x0-dtype:{kind}"
+                before = snap([xk]) if isinstance(xk, np.ndarray) else repr(xk)
+                try:
+                    with quiet():
+                        if wname == "minimize":
+                            refs = [sopt.minimize(F, s_, jac=G, method="BFGS") for s_ in (as_kind(x0, kind), x0.copy())]
+                            sol, info = minimize(F, xk, gradfunc=G, method="BFGS").solve()
+                        elif wname == "maximize":
+                            refs = [sopt.minimize(F, s_, jac=G, method="BFGS") for s_ in (as_kind(x0, kind), x0.copy())]
+                            sol, info = maximize(lambda x: -F(x), xk, gradfunc=lambda x: -G(x), method="BFGS").solve()
+                        elif wname == "L_BFGS_B":
+                            rr = [sopt.fmin_l_bfgs_b(F, s_, fprime=G, approx_grad=0) for s_ in (as_kind(x0, kind), x0.copy())]
+                            refs = [{"x": r_[0], "fun": r_[1], "jac": r_[2]["grad"], "nit": r_[2]["nit"], "nfev": r_[2]["funcalls"]} for r_ in rr]
+                            sol, info = L_BFGS_B(F, xk, gradfunc=G).solve()
+                        else:
+                            rr = [sopt.least_squares(R, s_, jac=Jr, method="trf", loss="linear", xtol=1e-6, max_nfev=10000) for s_ in (as_kind(x0, kind), x0.copy())]
+                            refs = [{"x": r_["x"], "fun": r_["fun"], "jac": r_["jac"], "nfev": r_["nfev"]} for r_ in rr]
+                            sol, info = LS(R, xk, jacfun=Jr).solve()
+                except Exception as e:
+                    ctx.fail(key + ":raises", desc, "SciPy's result", repr(e)[:100], "wrapper (or SciPy) raises for this start vector"); continue
+                after = snap([xk]) if isinstance(xk, np.ndarray) else repr(xk)
+                if after != before:
+                    ctx.fail(f"{wname}:mutates-argument", desc, "x0 untouched", "changed", "wrapper modifies the caller's start vector")
+                sol = np.asarray(sol)
+                todo = [("same-start", refs[0])] + ([("float64-start", refs[1])] if kind != "float32" else [])
+                for tag, ref in todo:
+                    bad = []
+                    if sol.dtype != np.asarray(ref["x"]).dtype or not same_deep(sol, ref["x"]):
+                        bad.append(("x", str(np.asarray(ref["x"]).tolist())[:80] + " " + str(np.asarray(ref["x"]).dtype), str(sol.tolist())[:80] + " " + str(sol.dtype)))
+                    gotm = {"fun": info["func"], "jac": info.get("grad", info.get("jac")), "nit": info.get("nit"), "nfev": info["nfev"]}
+                    for fld in ("fun", "jac", "nit", "nfev"):
+                        if fld in ref and not same_deep(gotm[fld], ref[fld]):
+                            bad.append((fld, str(ref[fld])[:60], str(gotm[fld])[:60]))
+                    if bad:
+                        ctx.disagree(key, {**desc, "reference": tag}, [b_[1] for b_ in bad], [b_[2] for b_ in bad], "fields differing: " + ",".join(b_[0] for b_ in bad))
+                        ctx.fail(key, {**desc, "reference": tag}, {b_[0]: b_[1] for b_ in bad}, {b_[0]: b_[2] for b_ in bad},
+                                 "wrapper does not return SciPy's result unchanged for this start vector (dtype / container)")
+                        break
